@@ -14,6 +14,7 @@ import (
 	"encoding/json"
 	"fmt"
 	"io"
+	"net"
 	"net/http"
 	"net/url"
 	"reflect"
@@ -408,6 +409,110 @@ func terminated(c *ev.Check) {
 	}
 }
 
+// ------------------------------------------------------------------ upgrade requests (exec/attach/port-forward style)
+
+func upgrades(c *ev.Check) {
+	w := newWorld()
+	defer w.close()
+	for _, tc := range []struct{ path, query, proto string }{
+		{"/api/v1/namespaces/ns/pods/p/exec", "command=ls&command=-l&stdin=true", "SPDY/3.1"},
+		{"/api/v1/namespaces/a%2Fb/pods/p/attach", "", "SPDY/3.1"},
+		{"/api/v1/namespaces/ns/pods/p/portforward", "ports=80", "websocket"},
+	} {
+		c.Add("upgrade_cases", 1)
+		label := fmt.Sprintf("upgrade %s %s?%s", tc.proto, tc.path, tc.query)
+		w.up.Requests()
+		w.up.Respond = func(rw http.ResponseWriter, r *http.Request, _ *e2e.Captured) {
+			conn, buf, err := rw.(http.Hijacker).Hijack()
+			if err != nil {
+				return
+			}
+			defer conn.Close()
+			_, _ = buf.WriteString("HTTP/1.1 101 Switching Protocols\r\nConnection: Upgrade\r\nUpgrade: " + r.Header.Get("Upgrade") + "\r\nX-Stream-Protocol-Version: v4.channel.k8s.io\r\n\r\n")
+			_ = buf.Flush()
+			b := make([]byte, 64)
+			n, _ := buf.Read(b)
+			_, _ = conn.Write(append([]byte("echo:"), b[:n]...))
+		}
+		target := tc.path
+		if tc.query != "" {
+			target += "?" + tc.query
+		}
+		raw := "POST " + target + " HTTP/1.1\r\nHost: c1\r\nConnection: Upgrade\r\nUpgrade: " + tc.proto + "\r\nX-Stream-Protocol-Version: v4.channel.k8s.io\r\nX-Foo: bar\r\nContent-Length: 0\r\n\r\n"
+		conn, err := netDial(w.r)
+		if err != nil {
+			c.Violation("upgrade/client-error", label+": "+err.Error(), label)
+			continue
+		}
+		_, _ = conn.Write([]byte(raw))
+		_ = conn.SetReadDeadline(time.Now().Add(3 * time.Second))
+		head := readUntil(conn, "\r\n\r\n")
+		_, _ = conn.Write([]byte("ping-through-the-gateway"))
+		echo := readUntil(conn, "gateway")
+		conn.Close()
+		viol := func(key, f string, a ...interface{}) {
+			c.Violation("upgrade/"+key, label+": "+fmt.Sprintf(f, a...), label)
+		}
+		c.Outcome("upgrade_outcomes", fmt.Sprintf("%s/%v", tc.proto, strings.HasPrefix(head, "HTTP/1.1 101")))
+		if !strings.HasPrefix(head, "HTTP/1.1 101") {
+			viol("not-switched", "the client did not receive 101 Switching Protocols: %q", prefix([]byte(head)))
+			continue
+		}
+		if !strings.Contains(head, "X-Stream-Protocol-Version: v4.channel.k8s.io") {
+			viol("response-header-lost", "the upstream's upgrade response header did not reach the client: %q", head)
+		}
+		if echo != "echo:ping-through-the-gateway" {
+			viol("stream-bytes", "bytes did not cross the upgraded connection both ways: %q", echo)
+		}
+		got := w.up.Requests()
+		if len(got) != 1 {
+			viol("not-forwarded-once", "the upstream received %d requests", len(got))
+			continue
+		}
+		g := got[0]
+		sent, _ := url.Parse("http://x" + target)
+		if g.Method != "POST" || g.Path != sent.Path || g.RawPath != sent.EscapedPath() {
+			viol("request-line", "arrived as %s %s (escaped %s)", g.Method, g.Path, g.RawPath)
+		}
+		if !reflect.DeepEqual(map[string][]string(parseQ(tc.query)), map[string][]string(parseQ(g.RawQuery))) && tc.query != "" {
+			viol("query", "query %q arrived as %q", tc.query, g.RawQuery)
+		}
+		if g.Header.Get("X-Foo") != "bar" || g.Header.Get("X-Stream-Protocol-Version") != "v4.channel.k8s.io" || !strings.EqualFold(g.Header.Get("Upgrade"), tc.proto) {
+			viol("headers", "upgrade request headers arrived as %v", g.Header)
+		}
+		// (with a bearer-token client config the upgrade path sends no Authorization header at all - the upgrade
+		// round tripper that is unwrapped sits below client-go's bearer wrapper; the properties only demand that no
+		// client credential arrives, so a missing credential is recorded, not judged: see DESIGN.md §0.6)
+		if a := g.Header["Authorization"]; len(a) > 1 || len(a) == 1 && a[0] != "Bearer "+e2e.GatewayToken {
+			viol("credential", "Authorization at the upstream is %q", a)
+		} else if len(a) == 0 {
+			c.Add("upgrade_without_gateway_credential", 1)
+		}
+		if g.Header.Get("Impersonate-User") != "alice" {
+			viol("identity", "the upgraded request does not carry the gateway's impersonation headers: %v", g.Header)
+		}
+	}
+}
+
+func netDial(r *e2e.Rig) (net.Conn, error) {
+	return net.DialTimeout("tcp", r.GW.Listener.Addr().String(), 2*time.Second)
+}
+
+func readUntil(conn net.Conn, marker string) string {
+	var out []byte
+	b := make([]byte, 1)
+	for !strings.HasSuffix(string(out), marker) {
+		n, err := conn.Read(b)
+		if n > 0 {
+			out = append(out, b[0])
+		}
+		if err != nil {
+			break
+		}
+	}
+	return string(out)
+}
+
 // ------------------------------------------------------------------ exit paths give the slot back (C05)
 
 func exitPaths(c *ev.Check) {
@@ -517,7 +622,7 @@ func exitPaths(c *ev.Check) {
 func main() {
 	c := ev.Start("C04", "exploration")
 	c.Assume = []string{
-		"loopback HTTP/1.1 between client, gateway (real proxy handler chain behind an httptest server) and stub upstreams; HTTP/2 framing, TLS and upgrade (SPDY/websocket) streams are not covered",
+		"loopback HTTP/1.1 between client, gateway (real proxy handler chain behind an httptest server) and stub upstreams; HTTP/2 framing and TLS are not covered; upgrade requests (SPDY/3.1, websocket) are covered by three scenarios (request line, headers, 101 relayed, bytes both ways), not by a product",
 		"path comparison is on the decoded path and on the escaped form; query comparison is on the parsed multimap (parameter order across keys and re-escaping are not judged; pairs that net/url cannot parse are outside the comparison)",
 		"headers excepted at the upstream: hop-by-hop and Connection-listed headers, Authorization, Impersonate-*, X-Forwarded-For; headers the gateway's transport may add: Accept-Encoding, User-Agent; at the client: Date, Content-Length, Transfer-Encoding, Connection and the gateway's Cache-Control default when the upstream sent none",
 	}
@@ -601,6 +706,7 @@ func main() {
 	}
 	tasks = append(tasks, ev.Task{Name: "terminated", Run: func() { terminated(c) }})
 	tasks = append(tasks, ev.Task{Name: "exit-paths", Run: func() { exitPaths(c) }})
+	tasks = append(tasks, ev.Task{Name: "upgrades", Run: func() { upgrades(c) }})
 	c.RunTasks(tasks)
 	names := []string{}
 	for _, p := range paths {
@@ -608,7 +714,7 @@ func main() {
 	}
 	sort.Strings(names)
 	c.Finish(map[string]interface{}{
-		"evaluations":         c.Counter("request_cases") + c.Counter("response_cases") + c.Counter("terminated_cases") + c.Counter("exit_path_cases"),
+		"evaluations":         c.Counter("request_cases") + c.Counter("response_cases") + c.Counter("terminated_cases") + c.Counter("exit_path_cases") + c.Counter("upgrade_cases"),
 		"distinct_nontrivial": c.DistinctCount("request_shapes") + c.DistinctCount("response_shapes") + c.DistinctCount("terminated_outcomes") + c.DistinctCount("exit_paths"),
 		"rule":                "request shapes: 7 methods x 12 paths (escaped space, slash, percent, question mark, UTF-8, double slash, trailing slash, root) x 11 queries x 9 header sets x 5 bodies (incl. 1 MiB and a chunked upload of unknown length) - each dimension fully, the method x path x query product with one header set and body in the quick tier, with 3 bodies x 3 header sets in the thorough tier; response shapes: 10 statuses x 7 header sets x 5 bodies (incl. flushed chunks and a 4 KiB error body), full product; 11 gateway-terminated cases; 8 ways a request ends. Distinct = shapes that reached the comparison.",
 		"paths":               names,
